@@ -163,8 +163,15 @@ def build_project(root, sentinel_dir, rnd, helper_modules, with_compiled=False):
     for m in ('quopri', 'stringprep', 'bz2', 'uu'):
         if m in cands and m not in shadow and rnd.random() < 0.8:
             shadow.append(m)
+    # modules that Unicode handling imports lazily (normalisation of non-ASCII identifiers)
+    for m in ('unicodedata', 'stringprep'):
+        if m in cands and m not in shadow:
+            shadow.append(m)
     for m in shadow:
         add(m + '.py', 'SHADOW = %r\ndef shadow_fn(): pass\n' % m)
+    # modules with non-ASCII names (PEP 3131), one of them not NFKC-stable
+    add('donn\u00e9es.py', 'DONNEES = 1\ndef donnees_fn(): pass\n')
+    add('\ufb01le_mod.py', 'LIGATURE = 1\n')
     # compiled modules in the project: a C extension and a source-less .pyc, both writing a
     # sentinel when really imported (the only kind of module jedi ever imports for real)
     compiled = []
@@ -204,7 +211,7 @@ def build_project(root, sentinel_dir, rnd, helper_modules, with_compiled=False):
     for rel, text in files.items():
         p = os.path.join(root, rel)
         os.makedirs(os.path.dirname(p), exist_ok=True)
-        with open(p, 'w') as f:
+        with open(p, 'w', encoding='utf-8') as f:
             f.write(text)
     return files, shadow + compiled_names
 
@@ -317,7 +324,7 @@ def run(spec):
     mods = ['conftest', 'setup', 'sitecustomize', 'usercustomize', 'gi', 'mod', 'pkg', 'pkg.sub', 'plug'] + shadow
     rnd.shuffle(mods)
     mods = [m for m in ('somod', 'pycmod') if m in shadow] + [m for m in mods if m not in ('somod', 'pycmod')]
-    mods = mods[:14] + ['distutils', 'zmod0', 'zmod%d' % rnd.randint(1, 4), 'zpkg.inner']
+    mods = mods[:14] + ['donn\u00e9es', '\ufb01le_mod', 'distutils', 'zmod0', 'zmod%d' % rnd.randint(1, 4), 'zpkg.inner']
     configs = [
         ('default', dict()),
         ('sys_path', dict(sys_path=[root] + [p for p in env.get_sys_path() if p])),
